@@ -31,82 +31,82 @@ RULE_HIST = ('breadth-first search over event histories (application calls incl.
 PLANS = {
     'C01': {
         'level': 'model_checking', 'rule': RULE_HIST, 'assumptions': ASSUME, 'targets': T,
-        'deadline': {'quick': 420, 'thorough': 2700},
+        'deadline': {'quick': 420, 'thorough': 2400},
         'jobs': [
-            job('life-udp', 'life-udp', 'C01', {'quick': 4, 'thorough': 5}, {'quick': 1, 'thorough': 2},
+            job('life-udp', 'life-udp', 'C01', {'quick': 4, 'thorough': 4}, {'quick': 1, 'thorough': 2},
                 wit=['tx_udp', 'timer_fired', 'fault_fired']),
-            job('life-reentrant', 'life-reentrant', 'C01', {'quick': 4, 'thorough': 6}, {'quick': 1, 'thorough': 2},
+            job('life-reentrant', 'life-reentrant', 'C01', {'quick': 4, 'thorough': 5}, {'quick': 1, 'thorough': 2},
                 wit=['reentrant_request', 'reentrant_cancel']),
-            job('life-tcp', 'life-tcp', 'C01', {'quick': 4, 'thorough': 6}, {'quick': 1, 'thorough': 2}, wit=['tx_tcp', 'short_write']),
+            job('life-tcp', 'life-tcp', 'C01', {'quick': 4, 'thorough': 5}, {'quick': 1, 'thorough': 2}, wit=['tx_tcp', 'short_write']),
         ],
     },
     'C05': {
         'level': 'model_checking', 'rule': RULE_HIST + '; adversary packets (one mutation of what a genuine reply would be) are extra events; provenance markers in RDATA identify the packet every delivered record came from', 'assumptions': ASSUME, 'targets': T,
-        'deadline': {'quick': 420, 'thorough': 2700},
+        'deadline': {'quick': 420, 'thorough': 2400},
         'jobs': [
-            job('adversary', 'adversary', 'C05', {'quick': 5, 'thorough': 7}, {'quick': 1, 'thorough': 2},
+            job('adversary', 'adversary', 'C05', {'quick': 5, 'thorough': 6}, {'quick': 1, 'thorough': 2},
                 wit=['c05_authentic_delivery', 'forged_packet_read', 'tx_tcp']),
         ],
     },
     'C06': {
         'level': 'model_checking', 'rule': RULE_HIST + '; per-attempt server outcomes and the jitter/rotate draws are enumerated; transmissions are counted per query id at the virtual network', 'assumptions': ASSUME, 'targets': T,
-        'deadline': {'quick': 420, 'thorough': 2700},
+        'deadline': {'quick': 420, 'thorough': 2400},
         'jobs': [
-            job('retry', 'retry', 'C06', {'quick': 4, 'thorough': 6}, {'quick': 1, 'thorough': 2},
+            job('retry', 'retry', 'C06', {'quick': 4, 'thorough': 5}, {'quick': 1, 'thorough': 1},
                 wit=['c06_retransmission', 'c06_budget_exhausted', 'c06_gap_checked', 'policy_alternatives', 'fault_fired']),
             job('retry-long', 'retry-long', 'C06', 1, 0, wit=['c06_budget_exhausted'], min_outcomes=1, shards=1),
         ],
     },
     'C07': {
         'level': 'model_checking', 'rule': RULE_HIST + '; in every state the timeout hint is compared (for four caller maxima) with the earliest deadline over ALL outstanding queries, and every timer event is executed one microsecond early (must change nothing) and on time (must make progress)', 'assumptions': ASSUME, 'targets': T,
-        'deadline': {'quick': 420, 'thorough': 2700},
+        'deadline': {'quick': 420, 'thorough': 2400},
         'jobs': [
-            job('hint-udp', 'life-udp', 'C07', {'quick': 4, 'thorough': 5}, {'quick': 1, 'thorough': 2}, wit=['hint_checked', 'timer_fired']),
-            job('hint-retry', 'retry', 'C07', {'quick': 4, 'thorough': 6}, {'quick': 1, 'thorough': 2}, wit=['hint_checked', 'timer_fired']),
-            job('hint-tcp', 'life-tcp', 'C07', {'quick': 4, 'thorough': 6}, {'quick': 1, 'thorough': 2}, wit=['hint_checked', 'timer_fired']),
+            job('hint-udp', 'life-udp', 'C07', {'quick': 4, 'thorough': 4}, {'quick': 1, 'thorough': 2}, wit=['hint_checked', 'timer_fired']),
+            job('hint-retry', 'retry', 'C07', {'quick': 4, 'thorough': 5}, {'quick': 1, 'thorough': 1}, wit=['hint_checked', 'timer_fired']),
+            job('hint-tcp', 'life-tcp', 'C07', {'quick': 4, 'thorough': 5}, {'quick': 1, 'thorough': 2}, wit=['hint_checked', 'timer_fired']),
         ],
     },
     'C08': {
         'level': 'model_checking', 'rule': RULE_HIST + '; request menu = a base question and its near misses, replies with TTL mixes, virtual-time advances, server-list changes and reinit; reference cache keyed by (flags,type,class,lower-case name) built from the packets the library actually read', 'assumptions': ASSUME, 'targets': T,
-        'deadline': {'quick': 420, 'thorough': 2700},
+        'deadline': {'quick': 420, 'thorough': 2400},
         'jobs': [
             job('cache', 'cache', 'C08', {'quick': 4, 'thorough': 5}, 0, wit=['c08_cache_hit', 'c08_aged_hit_ttl_checked']),
         ],
     },
     'C10': {
         'level': 'model_checking', 'rule': RULE_HIST + '; per-descriptor automaton from the socket-call log, sock-state callback stream, legacy ares_fds/ares_getsock sets compared with what the channel holds, a fault at every socket call site', 'assumptions': ASSUME, 'targets': T,
-        'deadline': {'quick': 420, 'thorough': 2700},
+        'deadline': {'quick': 420, 'thorough': 2400},
         'jobs': [
-            job('sock', 'sock', 'C10', {'quick': 4, 'thorough': 6}, {'quick': 1, 'thorough': 2}, wit=['fault_fired', 'tx_tcp', 'tx_udp', 'write_interest_needed', 'pending_write_cb']),
-            job('sock-life-udp', 'life-udp', 'C10', {'quick': 4, 'thorough': 5}, {'quick': 1, 'thorough': 2}, wit=['fault_fired']),
+            job('sock', 'sock', 'C10', {'quick': 4, 'thorough': 5}, {'quick': 1, 'thorough': 2}, wit=['fault_fired', 'tx_tcp', 'tx_udp', 'write_interest_needed', 'pending_write_cb']),
+            job('sock-life-udp', 'life-udp', 'C10', {'quick': 4, 'thorough': 4}, {'quick': 1, 'thorough': 2}, wit=['fault_fired']),
             job('sock-reentrant', 'life-reentrant', 'C10', {'quick': 4, 'thorough': 5}, {'quick': 1, 'thorough': 2}),
         ],
     },
     'C09': {
         'level': 'model_checking', 'rule': RULE_HIST + '; the rotate pick and the probe coin are enumerated through the random tape; reference health table driven only by the public server-state callback stream', 'assumptions': ASSUME, 'targets': T,
-        'deadline': {'quick': 420, 'thorough': 2700},
+        'deadline': {'quick': 420, 'thorough': 2400},
         'jobs': [
-            job('failover', 'failover', 'C09', {'quick': 5, 'thorough': 6}, 1,
+            job('failover', 'failover', 'C09', {'quick': 5, 'thorough': 5}, 1,
                 wit=['c09_selection_checked', 'c09_failed_over', 'c09_probe_seen', 'c09_rotate_choice', 'policy_alternatives']),
         ],
     },
     'C12': {
         'level': 'model_checking', 'rule': RULE_HIST + '; names x ndots x domain lists x flags x aliases x per-candidate outcome sequences; reference = candidate order of resolv.conf(5)', 'assumptions': ASSUME, 'targets': T,
-        'deadline': {'quick': 420, 'thorough': 2700},
+        'deadline': {'quick': 420, 'thorough': 2400},
         'jobs': [
             job('search', 'search', 'C12', {'quick': 6, 'thorough': 8}, 0, wit=['c12_sequence_checked', 'c12_multi_candidate']),
         ],
     },
     'C13': {
         'level': 'model_checking', 'rule': RULE_HIST + '; answer grammar (single, multi, CNAME chain, mixed families + foreign class) x hints x sortlists x lookup orders x hosts files; provenance markers per resource record', 'assumptions': ASSUME, 'targets': T,
-        'deadline': {'quick': 420, 'thorough': 2700},
+        'deadline': {'quick': 420, 'thorough': 2400},
         'jobs': [
             job('addrs', 'addrs', 'C13', {'quick': 4, 'thorough': 5}, 0, wit=['c13_set_checked', 'c13_multi_address', 'c13_non_dns_checked', 'c13_loopback_checked', 'c13_reverse_question_checked']),
         ],
     },
     'C17': {
         'level': 'model_checking', 'rule': RULE_HIST + '; server cookie behaviours (none, valid, changed, wrong client part, BADCOOKIE with/without cookie, TC) x virtual-time advances across the timers x source-address change; reference RFC 7873 client automaton replayed over the transmissions and the packets the library looked at', 'assumptions': ASSUME, 'targets': T,
-        'deadline': {'quick': 420, 'thorough': 2700},
+        'deadline': {'quick': 420, 'thorough': 2400},
         'jobs': [
             job('cookie', 'cookie', 'C17', {'quick': 5, 'thorough': 6}, 0,
                 wit=['c17_client_cookie_constant', 'c17_client_cookie_rotated', 'c17_server_cookie_echoed', 'c17_tcp_without_cookie', 'c17_badcookie_resend',
@@ -136,4 +136,4 @@ PLANS = {
     },
 }
 # C03's on-the-wire part is added to the EX-C plan by plans.py (see there)
-WIRE_JOB = job('wire', 'wire', 'C03', {'quick': 5, 'thorough': 7}, 1, wit=['c03_wire_tcp_frame_checked', 'c03_wire_udp_frame_checked', 'c03_wire_compression_used'])
+WIRE_JOB = job('wire', 'wire', 'C03', {'quick': 5, 'thorough': 6}, 1, wit=['c03_wire_tcp_frame_checked', 'c03_wire_udp_frame_checked', 'c03_wire_compression_used'])
